@@ -123,6 +123,7 @@ func runC19(p *eng.Prog, r *eng.Report, tier string) {
 	c.r.Floor("C19.19", "attribute fields with their own marshaler", nAM, 3)
 	historyPageSlotAgreement(c, "C19.31")
 	c.r.Floor("C19.32", "floats formatted into attributes that are decoded into integer fields", floatsFormattedForIntegerReaders(c, "C19.32"), 1)
+	c.r.Floor("C19.33", "time stamps formatted by the encoders", timeLayoutsKeepFractions(c, "C19.33", inC19), 5)
 	nDur := decodedDurationsBounded(c, "C19.30", inC19)
 	c.r.Floor("C19.30", "durations computed from decoded integers", nDur, 1)
 	c20SortsCopies(c, "C19.29")
